@@ -24,6 +24,7 @@ use std::{collections::BTreeMap, path::Path, time::Duration};
 pub enum Mode {
 	C02,
 	C03,
+	C09,
 	C12,
 	C13,
 	C14,
@@ -34,6 +35,7 @@ fn mode_of(p: &str) -> Option<Mode> {
 	Some(match p {
 		"C02" => Mode::C02,
 		"C03" => Mode::C03,
+		"C09" => Mode::C09,
 		"C12" => Mode::C12,
 		"C13" => Mode::C13,
 		"C14" => Mode::C14,
@@ -67,6 +69,12 @@ fn spec_for(prop: &str, _tier: Tier) -> Option<Spec> {
 			.require("images_with_synced_lower_bound", 30)
 			.budget(35, 600)
 			.assume("crash part of C03 (the clean-shutdown part is decided by the stepping engine in the same check)"),
+		Mode::C09 => Spec::new("C09", "exploration", "Crash part of C09 (the stepping engine decides the rest in the same check): the crash simulator's histories restricted to the index-growth layout (identity-hashed uniform keys of one index page, every other history with ONE transaction that overflows the page several times so that a single record grows the index by several steps, one in three with a second, reference-counted column), crash instants as in C02 (action boundaries and try_io boundary k inside process_commits / process_reindex / enact / clean / drop / open, two-worker nested schedules included); recovery must give a prefix state S_m in which every key returns its latest value, and a continuation workload must still follow the model.")
+			.require("images", 100)
+			.require("images_inside_step", 30)
+			.require("images_needing_replay", 10)
+			.budget(40, 600)
+			.assume("crash part of C09; restart / growth interleavings without crashes are decided by the stepping engine"),
 		Mode::C14 => Spec::new("C14", "exploration", &format!("{}Crash images as in C02; after recovery, a continuation workload, a clean restart and a drain, the independent structural checker (pvfsck) validates the files against the recovered prefix state plus the continuation (free lists, slot classification, index<->value bijection, btree order/depth, tree reference counts).", common))
 			.require("images", 100)
 			.require("fsck_after_recovery", 50)
@@ -118,6 +126,8 @@ fn shard(ctx: &Ctx, rep: &mut Report) {
 	while i < max_cases && ctx.elapsed_frac() < 0.8 {
 		let case_seed = seeder.next() >> 2;
 		let variant = ctx.shard as u64 + i * ctx.nshards as u64;
+		// C09: only the index-growth layout (kind 5); the flavour still walks all four values
+		let variant = if mode == Mode::C09 { (variant & !7) | 5 } else { variant };
 		run_case(ctx, rep, mode, case_seed, variant, None);
 		rep.cases += 1;
 		ctx.checkpoint(rep);
@@ -466,7 +476,7 @@ fn crash_child(mode: Mode, rec: &Recorded, dir: &Path, act: usize, phase: &'stat
 	let events_before = interpose::tracker().map(|t| t.counts.clone()).unwrap_or_default();
 	let files_before: Vec<String> = dbutil::list_files(dir).into_iter().map(|f| f.0).collect();
 	let lo = match mode {
-		Mode::C02 | Mode::C14 => 0,
+		Mode::C02 | Mode::C09 | Mode::C14 => 0,
 		_ => rec.synced_before[act],
 	};
 	let hi = rec.commits_before[act] + if matches!(rec.acts[act], Act::Commit(_)) && phase == "boundary" { 1 } else { 0 };
